@@ -25,4 +25,11 @@ chunk boundary between the CR and the LF of a CR LF turns one message `… CR LF
 the same parameters, but the messages parsed (`parseMsg` events) differ. -/
 def NoCR (s : Bytes) : Prop := ∀ b ∈ s, b ≠ 13
 
+/-- what a user of the library can observe: `Observable` without the `parseMsg` events.  Those are a
+verification hook (the message as it is handed to SCPI_Parse); a user sees handlers, parameters, errors,
+output, flushes, registers, the error queue and the unconsumed remainder, not message boundaries. -/
+def UserObservable (c : Ctx) : List Ev × Bytes × Nat × List Regs.Reg × Fifo.SpecQ × Bytes :=
+  (c.events.filter (fun e => match e with | .input _ => false | .parseMsg _ => false | _ => true),
+   c.out.written, c.out.flushes, c.regs.regs, Fifo.EQ.abs c.eq, c.buf.take c.position)
+
 end ScpiVerif.Props.C08
